@@ -37,6 +37,8 @@ structure Sim where
   jamMs : Nat := 0
   jam : Bool := false                -- the jam duration has elapsed since the last sign of life
   expiryArr : Nat := 0
+  hwait : Option Nat := none         -- `hg:<k>`: the panic handler blocks until job (index) k has finished
+  hcall : Nat := 0                   -- `hc:<n>`: the panic handler calls VerifCounts and PreAllocWorkerSize(n)
   expOn : Bool := false              -- a short expiry duration is in force (`exp:<ms>`)
   armed : List Nat := []             -- workers that entered their select with the short timer
 
@@ -52,6 +54,13 @@ def arrive (m : Sim) (pt : String) : Sim × Bool :=
 def kindOf (m : Sim) (j : Nat) : Kind := (m.kinds[j]?).getD .fast
 def isOpen (m : Sim) (j : Nat) : Bool := m.opened.contains j
 def wParked (m : Sim) (w : Nat) : Bool := m.parkedW.any (·.1 == w)
+
+def idxGo (name : Nat) : List Nat → Nat → Option Nat
+  | [], _ => none
+  | x :: xs, i => if x == name then some i else idxGo name xs (i + 1)
+
+/-- index of the (first) job the case line calls `name` -/
+def idxOf (m : Sim) (name : Nat) : Option Nat := idxGo name m.names 0
 
 /-- the queue's Offer answers Full exactly when c+b items are inside (loader settled: the generator keeps
     consumers away from the window) -/
@@ -87,7 +96,17 @@ def workerStep (m : Sim) (w : Nat) : Option Sim :=
     | .pgated v => if isOpen m j then app m (.wPanic w v) else none
     | .pnow v => app m (.wPanic w v)
   | some (.aft _) => app m (.wBusyDec w)
-  | some (.pan _ _) => app m (.wHandler w)
+  | some (.pan _ _) =>
+    -- the handler runs in the dying worker, outside every critical section: it may block on other jobs and
+    -- call back into the pool
+    let ready := match m.hwait with
+      | some k => match idxOf m k with
+        | some i => m.s.finished.contains i
+        | none => false
+      | none => true
+    if !ready then none else
+    let m1 := (List.range (m.hcall - m.s.count)).foldl (fun acc _ => (app acc (.gen m.hcall)).getD acc) m
+    app m1 (.wHandler w)
   | some (.exitDec _) =>
     (app m (.wExitDec w)).map fun m1 =>
       let (m2, p) := arrive m1 "exit"; if p then { m2 with parkedW := (w, "exit") :: m2.parkedW } else m2
@@ -198,13 +217,6 @@ def newSub (m : Sim) (timed : Bool) (name : Nat) (k : Kind) : Sim × Nat :=
   | some m1 => ({ m1 with kinds := m1.kinds ++ [k], names := m1.names ++ [name] }, i)
   | none => (m, i)
 
-def idxGo (name : Nat) : List Nat → Nat → Option Nat
-  | [], _ => none
-  | x :: xs, i => if x == name then some i else idxGo name xs (i + 1)
-
-/-- index of the (first) job the case line calls `name` -/
-def idxOf (m : Sim) (name : Nat) : Option Nat := idxGo name m.names 0
-
 /-- one op: (new simulator state, observation) -/
 def doOp (m : Sim) (tok : String) : Sim × String :=
   match tok.splitOn ":" with
@@ -283,6 +295,10 @@ def doOp (m : Sim) (tok : String) : Sim × String :=
       | some a => if a.s.workers.length > acc.s.workers.length then { a with jam := false } else a
       | none => acc) m
     (quiesce fuel0 m1, "pre")
+  | ["hg", k] =>
+    -- names a job that may be scheduled later: resolved when the handler runs (index = position of the name)
+    ({ m with hwait := some k.toNat! }, "hg")
+  | ["hc", n] => ({ m with hcall := n.toNat! }, "hc")
   | ["sy"] => (quiesce fuel0 m, "sy")
   | ["jam", ms] => ({ m with jamMs := ms.toNat!, jam := if ms.toNat! == 0 then false else m.jam }, "jam")
   | ["nh"] => ((app m (.setHandler false)).getD m, "nh")
@@ -361,6 +377,27 @@ def runStress (line : String) : String :=
   if okAll then s!"ok acc={m.s.accepted.length} ran={m.s.finished.length} han={m.s.handlerLog.length} closed=ok"
   else "model-incomplete"
 
+/-- two pools alive at once (A: maxA workers, B: maxB workers, each configured through its own setters), then a
+    third pool left at the documented defaults (standby 5, maximum 1000, batch 5).  Pools are independent
+    instances of the transition system: n gated jobs on A run min(n, maxA) at a time, each pool's panic goes
+    to its own handler, the default pool grows to its standby size on the first job. -/
+def runTwoPool (line : String) : String :=
+  let toks := (line.splitOn " ").filter (· ≠ "")
+  let maxA := cfgVal toks "maxA" 2
+  let n := cfgVal toks "n" 6
+  let mkSim (mx sb batch : Nat) : Sim :=
+    startPool { c := { max := mx, standby := sb, batch := batch, chanCap := 16, buf := 0, closeQueue := true, atomicExpiry := true } }
+  let a := (List.range n).foldl (fun acc j =>
+    let (m1, i) := newSub acc false j .gated
+    quiesce fuel0 (runSub 100 m1 i)) (mkSim maxA maxA 0)
+  let pan (m : Sim) (name : Nat) : Sim :=
+    let (m1, i) := newSub m false name (.pnow 1)
+    quiesce fuel0 (runSub 100 m1 i)
+  let a2 := pan (quiesce fuel0 { a with opened := List.range n }) n
+  let b := pan (mkSim (cfgVal toks "maxB" 6) (cfgVal toks "maxB" 6) 0) 0
+  let c := (fun m => let (m1, i) := newSub m false 0 .fast; quiesce fuel0 (runSub 100 m1 i)) (mkSim 1000 5 5)
+  s!"ok gaugeA={a.s.busy} ranA={a2.s.finished.length} hanA={a2.s.handlerLog.length} hanB={b.s.handlerLog.length} countC={c.s.count}"
+
 /-- protocol entry point -/
 def handle (line : String) : String :=
   if line.startsWith "sched " then
@@ -369,6 +406,7 @@ def handle (line : String) : String :=
     | [head] => runSched head ""
     | _ => "bad-line"
   else if line.startsWith "stress " then runStress (line.drop 7).toString
+  else if line.startsWith "twopool " then runTwoPool (line.drop 8).toString
   else "bad-line"
 
 /-! ### spec-level judge
@@ -446,6 +484,7 @@ def judge (line impl : String) : String :=
   if impl == exp then "allowed agrees with the model"
   else if hasSub impl "viol" then s!"violation monitor: {impl}"
   else if impl == "hang" || impl == "crash" || impl == "panic" then s!"violation the pool {impl}s (a job or the harness never returns / the process dies)"
+  else if line.startsWith "twopool " then s!"violation two-pool summary {impl}, the property prescribes {exp}"
   else if line.startsWith "stress " then
     if impl.startsWith "note" then "allowed worker bookkeeping differs (not a statement of the property): " ++ impl
     else s!"violation stress summary {impl}, the property prescribes {exp}"
